@@ -319,12 +319,20 @@ def leak_only(item):
 # ---------------------------------------------------------------------------------------------
 # source fingerprints
 def fingerprint(files):
+    """hash of the non-test source text of the given files, insensitive to comments and white space"""
     h = hashlib.sha256()
     for f in sorted(files):
         p = os.path.join(REPO, f)
         try:
-            with open(p, 'rb') as fh:
-                h.update(f.encode() + b'\0' + fh.read())
+            with open(p, 'r', encoding='utf-8', errors='replace') as fh:
+                src = fh.read()
         except OSError:
             h.update(f.encode() + b'\0<missing>')
+            continue
+        cut = src.find('#[cfg(test)]')
+        if cut >= 0:
+            src = src[:cut]
+        src = re.sub(r'//[^\n]*', '', src)
+        src = re.sub(r'\s+', '', src)
+        h.update(f.encode() + b'\0' + src.encode())
     return h.hexdigest()[:16]
